@@ -348,6 +348,23 @@ def r17_8(prog, rep):
             rep.undecided("R17.8", f"{C.INSP}.{name}", insp.relpath, "predicate not found")
             continue
         rep.check(bool(fn(ts)), "R17.8", f.qualname, f.loc, f"computed from the facts its contract names ({why[name]})", f"no longer computed from the facts its contract names: {why[name]}", detail="facts")
+    # the bare qualifier counts as the qualifier: the compared subject falls back to the object itself
+    for nm, target in (("isclassvartype", "typing.ClassVar"), ("isfinal", "typing.Final")):
+        f, ts = rets(nm)
+        if f is None:
+            continue
+        ok = False
+        for t0 in ts:
+            for s in T.walk(t0):
+                if s[0] == "cmp" and s[1] in ("is", "==") and T.refname(s[3]) == target:
+                    subj = s[2]
+                    if T.is_call_to(subj, f"{C.INSP}.origin"):
+                        ok = True
+                    elif T.is_call_to(subj, "builtins.getattr") and len(subj[2]) == 3 and subj[2][1] == ("const", "__origin__") and subj[2][2] == subj[2][0]:
+                        ok = True
+                    elif subj[0] == "boolop" and subj[1] == "or" and T.is_call_to(subj[2][0], "typing.get_origin"):
+                        ok = True
+        rep.check(ok, "R17.8", f.qualname, f.loc, f"the bare {target.rsplit('.', 1)[-1]} is recognised as well (the compared subject falls back to the object itself)", f"{nm} compares typing.get_origin(obj) only: the unsubscripted {target.rsplit('.', 1)[-1]} (a legal annotation) is no longer recognised", detail="bare-form")
     # _UNRESOLVABLE content
     un = P.module_term(prog, insp, "_UNRESOLVABLE")
     names = {T.refname(x) for x in un[1]} if un[0] in ("tuple", "list", "set") else set()
